@@ -75,7 +75,7 @@ def proof_items():
             # when prepare_run switches `parallel` off on its own: nothing could run side by side
             # every index of a mapped function is processed exactly once, in order: submitted to the executor that applies
             # to the function, or run on the spot (with progress bookkeeping around it when a status is tracked)
-            ProofItem(small.maybe_parallel_map, gen=small.mpm_gen, call=small.mpm_call_real,
+            ProofItem(small.maybe_parallel_map, gen=small.pmap_gen, call=small.pmap_call_real,
                       registry=lambda: {**{c.short: c for c in small.PARALLEL_MAP}, **{c.name: c for c in small.PARALLEL_MAP}}),
             ProofItem(small.cannot_be_parallelized, gen=small.cbp_gen,
                       registry=lambda: {**{c.short: c for c in small.PARALLEL}, **{c.name: c for c in small.PARALLEL}}),
